@@ -33,6 +33,7 @@ class Joiner:
         self.roots = roots            # restrict the memory join to these roots (None = all of A)
         self.shared = set()
         self.int_leaves = []
+        self.ty_facts = []
         self.collect_leaves = False
         self.jroots = 0
         self.why = []
@@ -165,6 +166,8 @@ class Joiner:
                 self.changed = True
                 return MIX
             r = self.jlin(a.lin, b.lin, a.w, a.sg)
+            if not r.is_const() and not (r.single() is not None and r.c == 0 and r.single()[1] == 1):
+                self.ty_facts.append((r, a.w, a.sg))
             if self.collect_leaves and len(self.int_leaves) < 8:
                 self.int_leaves.append((a.lin, b.lin, r, a.w))
             return VInt(r, a.w, a.sg)
@@ -348,6 +351,17 @@ class Joiner:
                 if f not in facts and all(self.common(s) for s in f.syms()) and A.prove_ge0(f):
                     facts.append(f)
         out.facts = facts
+        # a joined integer expressed as (common part + fresh symbol) still lies in its type's range
+        for lin, w, sg in self.ty_facts:
+            tl, th = ty_range(w, sg)
+            l, h = out.interval(lin)
+            try:
+                if (l is None or l < tl) and (not sg or w <= 16):
+                    out.assume_ge0(lin - tl)
+                if (h is None or h > th) and w <= 16:
+                    out.assume_ge0(Lin.const(th) - lin)
+            except Exception:
+                pass
         out.neqs = [d for d in A.neqs if d in B.neqs]
         out.ghost = {k: v for k, v in A.ghost.items() if B.ghost.get(k) == v}
         for k in STICKY_GHOST:
